@@ -612,6 +612,25 @@ func (e *env) opError(cs *Case) {
 	e.count("cmp_error_marker", 1)
 	if !isMarker(obs) {
 		e.fail(cs, "error-marker:"+cs.Fn, fmt.Sprintf("%s with unparseable {0}=%q: expected an error marker (<PARSE-ERROR> or <BAD-TYPE>), observed %q", t, cs.In, obs))
+		return
+	}
+	// the same damaged line once more, straight away, on the same compiled stage (logs repeat their damage): still the marker
+	obs2, prob := e.eval(t, cs.In, true)
+	e.count("comparisons", 1)
+	e.count("cmp_error_marker_repeated", 1)
+	if prob == "" && !isMarker(obs2) {
+		e.fail(cs, "error-marker-repeat:"+cs.Fn, fmt.Sprintf("%s with unparseable {0}=%q evaluated twice in a row on one compiled expression: the first evaluation gave the marker %q, the second %q", t, cs.In, obs, obs2))
+		return
+	}
+	// the same text as a constant of the template (evaluated at compile time when optimisation folds it)
+	if !strings.ContainsAny(cs.In, "{}\"\\ \t\n\r") && cs.In != "" && (cs.Fn == "duration" || cs.Fn == "durationformat" || cs.Fn == "timeformat" || cs.Fn == "timeattr") {
+		tc := strings.Replace(t, "{0}", cs.In, 1)
+		obs3, prob := e.eval(tc, "", false)
+		e.count("comparisons", 1)
+		e.count("cmp_error_marker_constant", 1)
+		if prob == "" && !isMarker(obs3) {
+			e.fail(cs, "error-marker-constant:"+cs.Fn, fmt.Sprintf("%s (the unparseable value %q written as a constant): expected an error marker as for the same text from the match, observed %q", tc, cs.In, obs3))
+		}
 	}
 }
 
